@@ -100,7 +100,7 @@ def do_action(run, state, stub, prog, act, files, paths):
     return "done"
 
 
-def observe(run, state, names, info, lenient=False):
+def observe(run, state, names, info, lenient=False, aliases=None):
     from esp_menuconfig.idf_headers import idf_sdkconfig_header
 
     k = state.kconf
@@ -121,6 +121,12 @@ def observe(run, state, names, info, lenient=False):
             def eff(text):
                 m = {}
                 for n, v, d in storecheck.parse_sdkconfig(text, info):
+                    if n not in info and aliases and n in aliases:
+                        # a deprecated name: the entry it stands for (a save would spell it with the new name)
+                        n, inv = aliases[n]
+                        if inv and info[n]["type"] == "bool":
+                            v = "n" if v == "y" else "y"
+                        d = False
                     if n in info:
                         m[n] = (v, d)
                     else:
